@@ -365,7 +365,8 @@ Qed.
     EVERY dendrogram and argument (no validity assumed in the first three): the text computes what the functional model
     of Model/Cuts.v computes, errors included, so Parts I-II speak about the text.  They are proved by symbolic execution
     of the generated terms, not against a pinned copy. *)
-From SKN Require Import Model.PyImp Gen.PyCuts Proofs.PyCutsProofs Proofs.PyCutsCompose.
+From SKN Require Import Model.PyImp Gen.PyCuts Proofs.PyCutsProofs Proofs.PyCutsCompose Proofs.PyLabelsProofs
+     Proofs.PyImpFrame Proofs.PyCutsEndToEnd.
 From Coq Require Import String.
 Local Open Scope string_scope.
 
@@ -400,7 +401,8 @@ Theorem source_reduce_loop_is_model D cindex csize cur cur_new (e0 : env) :
   e0 "current_cluster_new" = Some (vnat cur_new) -> e0 "dendrogram_new" = Some (VList []) ->
   keys_lt cur cindex -> keys_lt cur_new csize ->
   match reduce_loop D cindex csize cur cur_new with
-  | Ok res => exists e', exec src_reduce_loop e0 = POk e' /\ e' "dendrogram_new" = Some (VList (map embNewRow res))
+  | Ok res => exists e', exec src_reduce_loop e0 = POk e' /\ e' "dendrogram_new" = Some (VList (map embNewRow res)) /\
+                         e' "labels" = e0 "labels"
   | Err er => exec src_reduce_loop e0 = PErr (conv er)
   end.
 Proof. exact (src_reduce_loop_is_model D cindex csize cur cur_new e0). Qed.
@@ -431,6 +433,84 @@ Theorem source_cut_straight_clusters n D nc th (e0 : env) :
                     cinv n D (List.length D) st.
 Proof. exact (src_cut_straight_clusters n D nc th e0). Qed.
 Print Assumptions source_cut_straight_clusters.
+
+(** get_labels as a whole.  [src_get_labels_head] is everything before [if return_dendrogram:] (the clusters in dict order,
+    their reordering through np.argsort, the labels array written cluster by cluster), [src_get_labels_ret] adds the initialisation
+    and the loop of the reduced dendrogram.  np.argsort is an ORACLE: its answer for the one call is read from the environment and the
+    theorem holds for every answer that indexes the clusters (every permutation does).  Result: exactly the labels / reduced rows /
+    error of the model's get_labels. *)
+Theorem source_get_labels_is_model argsort D st sort ret (e0 : env) :
+  let n := S (List.length D) in
+  let answer := argsort (map (fun c => (- Z.of_nat (List.length c))%Z) (map snd st)) in
+  e0 "dendrogram" = Some (embD D) -> e0 "cluster" = Some (embC st) -> e0 "sort_clusters" = Some (VBool sort) ->
+  e0 "oracle:np.argsort" = Some (VList (map vnat answer)) ->
+  Forall (fun i => i < List.length st) answer ->
+  Forall (Forall (fun v => v < n)) (map snd st) ->
+  match get_labels argsort D st sort ret with
+  | Ok (labels, od) =>
+      exists e', exec (if ret then src_get_labels_ret else src_get_labels_head) e0 = POk e' /\
+                 e' "labels" = Some (VList (map vnat labels)) /\
+                 match od with
+                 | Some Dnew => ret = true /\ e' "dendrogram_new" = Some (VList (map embNewRow Dnew))
+                 | None => ret = false
+                 end
+  | Err er => ret = true /\ exec src_get_labels_ret e0 = PErr (conv er)
+  end.
+Proof. exact (src_get_labels_is_model argsort D st sort ret e0). Qed.
+Print Assumptions source_get_labels_is_model.
+
+(** A statement changes only the variables it syntactically assigns (frame theorem of the language; it is what allows the
+    fragments to be composed: the options and the oracle answer survive the first half). *)
+Theorem pyimp_frame s (en en' : env) :
+  exec s en = POk en' -> forall y, ~ In y (assigned s) -> en' y = en y.
+Proof. exact (exec_frame s en en'). Qed.
+Print Assumptions pyimp_frame.
+
+(** END TO END.  [src_cut_balanced_all ret] is the regenerated body of cut_balanced followed by the regenerated get_labels
+    (everything of the function except [check_dendrogram(dendrogram)] and the [return]); [src_cut_straight_all false] likewise
+    from [cluster = {...}] on.  For every valid dendrogram, every argument and every admissible np.argsort they compute exactly the
+    model's result, so that the clauses of C08 hold of the source text: *)
+Theorem source_cut_balanced_end_to_end argsort n D m sort ret (e0 : env) :
+  valid n D = true -> argsort_ok argsort ->
+  e0 "dendrogram" = Some (embD D) -> e0 "max_cluster_size" = Some (vnat m) -> e0 "sort_clusters" = Some (VBool sort) ->
+  (forall st, balanced_state D m = Ok st -> e0 "oracle:np.argsort" = Some (oracle_answer argsort st)) ->
+  match cut_balanced argsort D m sort ret with
+  | Ok (labels, od) =>
+      exists e', exec (src_cut_balanced_all ret) e0 = POk e' /\ e' "labels" = Some (VList (map vnat labels)) /\
+                 match od with
+                 | Some Dnew => ret = true /\ e' "dendrogram_new" = Some (VList (map embNewRow Dnew))
+                 | None => ret = false
+                 end
+  | Err er => exec (src_cut_balanced_all ret) e0 = PErr (conv er)
+  end.
+Proof. exact (src_cut_balanced_end_to_end argsort n D m sort ret e0). Qed.
+Print Assumptions source_cut_balanced_end_to_end.
+
+Theorem source_cut_balanced_labels_property argsort n D m sort ret (e0 : env) :
+  valid n D = true -> argsort_ok argsort -> 2 <= m <= n ->
+  e0 "dendrogram" = Some (embD D) -> e0 "max_cluster_size" = Some (vnat m) -> e0 "sort_clusters" = Some (VBool sort) ->
+  (forall st, balanced_state D m = Ok st -> e0 "oracle:np.argsort" = Some (oracle_answer argsort st)) ->
+  exists e' labels ids,
+    exec (src_cut_balanced_all ret) e0 = POk e' /\ e' "labels" = Some (VList (map vnat labels)) /\
+    subtree_partition n D labels ids /\ (sort = true -> sizes_sorted labels (List.length ids)) /\
+    (forall l, cluster_size labels l <= m).
+Proof. exact (src_cut_balanced_labels_property argsort n D m sort ret e0). Qed.
+Print Assumptions source_cut_balanced_labels_property.
+
+Theorem source_cut_straight_labels_property argsort n D nc th sort (e0 : env) :
+  valid n D = true -> argsort_ok argsort -> 2 <= n ->
+  match nc with Some k => 1 <= k <= n | None => True end ->
+  e0 "dendrogram" = Some (embD D) -> e0 "n" = Some (vnat n) ->
+  e0 "n_clusters" = Some (embON nc) -> e0 "threshold" = Some (embOQ th) -> e0 "sort_clusters" = Some (VBool sort) ->
+  (forall st, (match cut_height D nc th with
+               | Err e => Err e
+               | Ok cut => replay (straight_guard cut) (S (List.length D)) D (init_clusters (S (List.length D)))
+               end) = Ok st -> e0 "oracle:np.argsort" = Some (oracle_answer argsort st)) ->
+  exists e' labels ids,
+    exec (src_cut_straight_all false) e0 = POk e' /\ e' "labels" = Some (VList (map vnat labels)) /\
+    subtree_partition n D labels ids /\ (sort = true -> sizes_sorted labels (List.length ids)).
+Proof. exact (src_cut_straight_labels_property argsort n D nc th sort e0). Qed.
+Print Assumptions source_cut_straight_labels_property.
 
 (** The statements around the translated fragments (the reorder step of cut_straight, the argument lists of the two
     [return get_labels(...)], the initialisation before the loop of get_labels) are pinned to the reviewed text; they
@@ -478,4 +558,14 @@ Example c08_source_nonvacuous :
                            ("cluster_size", embN [(0, 2); (1, 2); (2, 1)]); ("current_cluster", vnat 5);
                            ("current_cluster_new", vnat 3); ("dendrogram_new", VList [])] "dendrogram_new"
     = POk (Some (VList (map embNewRow [(1, 2, 2%Q, 3); (0, 3, 3%Q, 5)]))).
+Proof. cbv zeta. repeat split; vm_compute; reflexivity. Qed.
+
+(** ... and end to end: cut_balanced(D, max_cluster_size=3, return_dendrogram=True) with the stable argsort. *)
+Example c08_source_end_to_end_nonvacuous :
+  let D := [(0, 1, 1%Q, 2); (2, 3, 1%Q, 2); (5, 4, 2%Q, 3); (6, 7, 3%Q, 5)] in
+  let e0 := [("dendrogram", embD D); ("max_cluster_size", vnat 3); ("sort_clusters", VBool true);
+             ("oracle:np.argsort", oracle_answer stable_argsort [(6, [2; 3]); (7, [0; 1; 4])])] in
+  run_var (src_cut_balanced_all true) e0 "labels" = POk (Some (VList (map vnat [0; 0; 1; 1; 0]))) /\
+  run_var (src_cut_balanced_all true) e0 "dendrogram_new" = POk (Some (VList (map embNewRow [(1, 0, 3%Q, 5)]))) /\
+  cut_balanced stable_argsort D 3 true true = Ok ([0; 0; 1; 1; 0], Some [(1, 0, 3%Q, 5)]).
 Proof. cbv zeta. repeat split; vm_compute; reflexivity. Qed.
